@@ -239,7 +239,14 @@ def _hashf(name, vals):
 
 
 def _rhu(x):
-    return np.floor(np.asarray(x, dtype=float) + 0.5)
+    # decimal ROUND_HALF_UP: to the nearest integer, ties away from zero
+    x = np.asarray(x, dtype=float)
+    return np.sign(x) * np.floor(np.abs(x) + 0.5)
+
+
+def nearest_integer(va, vb):
+    """relation for `equivalent`: va is integer-valued and within 0.5 of vb (any tie rule)"""
+    return bool(np.all(np.abs(va - np.round(va)) <= 1e-9) and np.all(np.abs(vb - va) <= 0.5 + 1e-9))
 
 
 def _euler(seq, a, deg):
@@ -362,6 +369,15 @@ def _cond_value(c, env, cache):
             return np.logical_not(_cond_value(c.args[0], env, cache))
         if c.op == "call" and c.args[0] in INTERPRETED:
             return evaluate(c, env, cache)
+        if c.op in ("eq", "ne", "lt", "le", "gt", "ge") and len(c.args) == 2:
+            # 'the symbolic input table has no rows': column terms range over its rows, so rows exist
+            for i_, j_ in ((0, 1), (1, 0)):
+                n_, z_ = c.args[i_], c.args[j_]
+                if n_.op == "call" and n_.args[0] == "nrows" and len(n_.args) == 3 and cval(n_.args[2]) == "input" and cval(z_) == 0 \
+                        and not isinstance(cval(z_), bool):
+                    big, zero = (1.0, 0.0)
+                    a_, b_ = (big, zero) if i_ == 0 else (zero, big)
+                    return {"eq": a_ == b_, "ne": a_ != b_, "lt": a_ < b_, "le": a_ <= b_, "gt": a_ > b_, "ge": a_ >= b_}[c.op]
         if has_uninterpreted(c):
             h = hashlib.md5((c.key() + repr(env.get("__salt__", 0.0))).encode()).digest()
             return bool(h[0] & 1)
@@ -417,6 +433,10 @@ def _apply(op, a, t):
             return f(np.asarray(_f(a[0]), dtype=float))
         if op == "arctan2":
             return np.arctan2(_f(a[0]), _f(a[1]))
+        if op in ("trunc", "sign"):
+            return getattr(np, op)(np.asarray(_f(a[0]), dtype=float))
+        if op == "copysign":
+            return np.copysign(_f(a[0]), _f(a[1]))
         if op == "round":
             return np.round(np.asarray(_f(a[0]), dtype=float), int(a[1]) if len(a) > 1 and a[1] is not None else 0)
         if op == "rhu":
@@ -527,8 +547,9 @@ class Verdict:
         return bool(self.equal)
 
 
-def equivalent(a, b, samplers=None, n=24, tol=1e-7, extra_envs=(), seed_tag="", need=None):
-    """Random interpretation: are the two terms equal as functions of their free symbols?"""
+def equivalent(a, b, samplers=None, n=24, tol=1e-7, extra_envs=(), seed_tag="", need=None, relation=None):
+    """Random interpretation: are the two terms equal as functions of their free symbols?  (`relation`, if given, replaces
+    equality: a predicate on the two evaluated values that must hold at every point)"""
     lattice_only = bool(extra_envs) and n <= len(extra_envs)  # the caller's points (e.g. integer lattice) are the domain
     n = len(extra_envs) if lattice_only else n * N_MULT
     names = symbols(a, b)
@@ -557,7 +578,7 @@ def equivalent(a, b, samplers=None, n=24, tol=1e-7, extra_envs=(), seed_tag="", 
                                f"shapes differ: {va.shape} vs {vb.shape}")
         if np.any(np.isnan(va)) or np.any(np.isnan(vb)) or np.any(np.isinf(va)) or np.any(np.isinf(vb)):
             continue  # outside the common domain
-        if not np.allclose(va, vb, rtol=tol, atol=tol):
+        if not (relation(va, vb) if relation is not None else np.allclose(va, vb, rtol=tol, atol=tol)):
             return Verdict(False, good, {"env": {k: _short(v) for k, v in env.items() if k != "__salt__"},
                                          "lhs": _short(va), "rhs": _short(vb)}, "values differ")
         good += 1
